@@ -260,7 +260,7 @@ def oracle(case, obs):
         return None
     host, port = hm.group(1), hm.group(2)
     default = 443 if scheme == "https" else 80
-    want_port = int(port) if port not in (None, "") and int(port) != 0 else default
+    want_port = int(port) if port not in (None, "") else default
     try:
         bare, bracketed = expected_host(host)
     except Exception:
@@ -337,6 +337,9 @@ def signature(case, obs, msg):
 
 def _signature(case, obs, msg):
     sig = {"msg": (msg or "")[:50]}
+    import re
+    if msg and ("the URL says" in msg) and re.search(r"^[a-zA-Z]+://[^/?#]*:0+(?:[/?#]|$)", case["url"]) and msg.rstrip().endswith((":0", " 0")):
+        return {"kind": "explicit-port-zero-read-as-absent"}
     if msg and "Host header is malformed" in msg and "[[" in msg:
         sig["kind"] = "tunnel-ipv6-host-double-brackets"
     elif msg and "Host header is malformed" in msg and "%" in msg and case["proxy"] == "http" and case["url"].lower().startswith("http:"):
